@@ -205,9 +205,10 @@ TABLE["C14"] = {
 TABLE["C13"] = {
     "pipelines": [{"name": "callconv", "cmd": ["callconv"], "n_quick": 400, "n_thorough": 100000, "timeout": 900, "timeout_thorough": 3400},
                   {"name": "enc-arm", "cmd": ["enc-arm"], "n_quick": 2000, "n_thorough": 100000, "timeout_thorough": 3000},
-                  dict(HIST_PIPE, own_keys_only=["c13.", "c01.follow"])],
+                  dict(HIST_PIPE, own_keys_only=["c13.", "c01.follow"]),
+                  {"name": "enc-x86-debug", "cmd": ["enc-x86"], "n_quick": 30000, "n_thorough": 1000000, "timeout_thorough": 3000, "own_keys_only": ["c13."]}],
     "fail_keys": ["c13.", "a32.scratch", "a64.tramp.dest", "a64.long.dest", "c01.follow"],
-    "filter_prefix": ["cc", "a32patch", "a64tramp", "a64long", "a64bool", "hist"],
+    "filter_prefix": ["cc", "a32patch", "a64tramp", "a64long", "a64bool", "hist", "x86br"],
     "trusted_base": TB_COMMON + [ISA_X86, ISA_A64, ISA_A32, "System V x86-64 / AAPCS64 / AAPCS32 register roles as listed in Props/C13.lean", "the real CPU executes the x86-64 path in the assembly probe"],
     "rule": "x86-64 assembly probe: PRNG sentinels in rdi, rsi, rdx, rcx, r8, r9, xmm0-7, two stack arguments, rbx, rbp, r12-r15; the faked function is called; an assembly fake records what it receives and returns known rax, rdx, xmm0, xmm1; alternately a near fake (short trampoline) and a copy of the fake at 0x6100_0000_0000 (> 2 GiB from the trampoline: long form mov rax, imm64; jmp rax). when the CPU has AVX, the eight ymm registers loaded with 256-bit patterns and recorded by an AVX fake (System V passes __m256 in whole ymm registers), both forms. Rust-level shapes: 12 mixed integer/float arguments, 72-byte struct return (hidden slot), two-register return, float return. The Arm lines (registers written by the decoded sequences) come from the host-compiled arm64/arm sources. Distinct by sentinel vector",
     "assumptions": ["ISA fragments", "rax carries no argument in the property's register sets (note: %al is the vector-register count of variadic calls; faking a variadic function through the long form would clobber it)"],
